@@ -171,4 +171,6 @@ WITNESSES = [
      "old": "\tasn = htonl(data->target_as);", "new": "\tasn = data->target_as;"},
     {"id": "C12.w9-nlri-bytes-floor", "rule": "C12.R4", "also": ("C12.R3",), "file": BU,
      "old": "\tuint8_t nlri_len_b = (data->nlri->nlri_len + 7) / 8; // bits to bytes", "new": "\tuint8_t nlri_len_b = data->nlri->nlri_len / 8; // bits to bytes"},
+    {"id": "C12.w-private-key-check-remembered", "rule": "C12.R5", "file": BU,
+     "old": "\tchar *p = (char *)bytes_key;\n\t*priv_key = NULL;", "new": "\tstatic unsigned int calls;\n\tchar *p = (char *)bytes_key;\n\t*priv_key = NULL;\n\tif (calls++ > 1000)\n\t\treturn RTR_BGPSEC_LOAD_PRIV_KEY_ERROR;"},
 ]
